@@ -8,7 +8,7 @@ EXTENDS Integers, Sequences, FiniteSets, TLC, Json
 
 CONSTANTS MaxN, Reps
 Base == 1700000000
-Shapes == {"log", "count", "sumcount", "sumdep", "maxnan"}     \* sumdep: sum by (app, dep) - containers 1 and 2 carry dep="", the others no dep label
+Shapes == {"log", "count", "sumcount", "sumdep", "maxnan", "rangeby"}     \* sumdep: sum by (app, dep) - containers 1 and 2 carry dep="", the others no dep label
 
 \* tie: every container logs at the same instants, and a log query's limit cuts the first tie group (nc - 1 of its nc
 \* records are returned): WHICH records come back then depends on how ties are broken, which must not be by arrival
@@ -23,7 +23,9 @@ SetToSeq(S) == IF S = {} THEN <<>> ELSE LET x == CHOOSE x \in S : TRUE IN <<x>> 
 APP == <<97, 112, 112>>
 CtrRec(c) == [id |-> <<105, 100, 48 + c>>, name |-> <<110, 48 + c>>, image |-> <<105>>, imageId |-> <<115>>, command |-> <<99>>, created |-> 1,
               state |-> <<114>>, status |-> <<85>>, labels |-> << <<APP, <<97 + (c % 2)>>>>, <<<<116, 105, 101, 114>>, <<120>>>> >> \o (IF c <= 2 THEN << <<<<100, 101, 112>>, <<>>>> >> ELSE <<>>), noName |-> FALSE,
-              frames |-> [j \in 1..2 |-> [typ |-> 1, ts |-> <<IF tie THEN Base + j ELSE Base + 2 * c + j, 0>>, msg |-> IF shape = "maxnan" THEN (IF c = 1 THEN <<118, 61, 78, 97, 78>> ELSE <<118, 61, 48 + c>>) ELSE <<99, 48 + c, 45, 48 + j>>, raw |-> FALSE]]]    \* maxnan: v=NaN for container 1, v=<c> for the others
+              frames |-> [j \in 1..2 |-> [typ |-> 1, ts |-> <<IF tie THEN Base + j ELSE Base + 2 * c + j, 0>>, msg |-> IF shape = "maxnan" THEN (IF c = 1 THEN <<118, 61, 78, 97, 78>> ELSE <<118, 61, 48 + c>>)
+                                                      ELSE IF shape = "rangeby" THEN <<118, 61, 48 + j, 32, 107, 61, 48 + (c % 2), 32, 106, 61, 48 + (j % 2)>>     \* v=<j> k=<c%2> j=<j%2>
+                                                      ELSE <<99, 48 + c, 45, 48 + j>>, raw |-> FALSE]]]    \* maxnan: v=NaN for container 1, v=<c> for the others
 Case == [in |-> [ctrs |-> [c \in 1..nc |-> CtrRec(c)], sel |-> <<>>, sel2 |-> <<>>, shape |-> shape, start |-> <<Base, 0>>, end |-> <<Base + 60, 0>>,
                  step |-> 20, range |-> 600, limit |-> IF tie /\ shape = "log" THEN nc - 1 ELSE 0 - 1, orders |-> SetToSeq(Perms(1..nc)), reps |-> Reps, faults |-> <<>>, listErr |-> FALSE, frag |-> <<>>]]
 Export == pc = "start" /\ pc' = "open" /\ UNCHANGED <<nc, shape, done, hist>> /\ PrintT(<<"CASE", ToJson(Case)>>)
